@@ -189,6 +189,10 @@ def run(ctx):
                          b_modes=("hold", "complete"), max_points=(5 if ctx.quick else 40))
     for i in range(6 if ctx.quick else 120):
         io_faults(ctx, r.fork(), prefer_big=(i % 2 == 0), torn=(i % 3 == 2))
+    # …and, every time, an appending multi-event command on a log that ends in a long fragment (the offset a failed append goes back to is that of
+    # the file *after* the tail repair)
+    for only in (("set{title,body,state}", "set flags{title,state,claim}"), ("claim-oldest", "claim-id", "new-task{state,claim}")):
+        io_faults(ctx, r.fork(), torn=True, only=only)
     ctx.cov["rule"] = ("compact / plan / compact on logs whose stamps are not in line order (exit≠0 ⇒ nothing changed); injected I/O errors (write/fsync/rename/ftruncate returning ENOSPC/EIO/EACCES from the k-th call on) on multi-event commands: exit≠0 ⇒ store as before, exit 0 ⇒ complete; "
                        "seeded histories biased to failing commands (every validation class × command × multi-field shape); oracle: exit≠0 ⇒ log bytes and "
                        "observable graph identical; distinct = (command, outcome class, input mode, field set)")
